@@ -1,13 +1,14 @@
 SPECIFICATION Spec
 CONSTANTS
   Dirs = {"A", "B"}
-  ChunkSizes <- BidirSizes
+  ChunkSizes = {}
   Shapes <- OneShape
-  AbsLens = {1, 300}
+  AbsLens = {300}
   RelLens = FALSE
-  MaxWrites = 3
+  MaxWrites = 2
   WriterFollowsOwnSCS = TRUE
-  HsOrder = "serial"
+  HsOrder = "free"
   HsReadExact = TRUE
-INVARIANTS NoDesync Emit
+INVARIANTS NoDesync HsExact Emit
+CONSTRAINTS Canonical ReadsLast
 CHECK_DEADLOCK FALSE
